@@ -225,7 +225,7 @@ def _env():
         from syne_tune import Tuner, StoppingCriterion
         from syne_tune import tuning_status as ts_mod
         from syne_tune.backend.simulator_backend import time_keeper as tk_mod
-        from syne_tune.backend.simulator_backend.simulator_backend import SimulatorConfig
+        from syne_tune.backend.simulator_backend.simulator_backend import SimulatorBackend, SimulatorConfig
         from syne_tune.backend.simulator_backend.simulator_callback import SimulatorCallback
         from syne_tune.backend.trial_backend import TrialBackend
         from syne_tune.backend.trial_status import Status, TrialResult
@@ -373,13 +373,14 @@ def _env():
         def own_states(self):
             return {t: s["status"] for t, s in self.st.items()}
 
-    class ObservedSim(UserBlackboxBackend):
+    class ObserveSimMixin:
         mon = None
 
         def fetch_status_results(self, trial_ids):
             self.mon.poll()
             self.mon.clock.now += 1000.0
             out = super().fetch_status_results(trial_ids)
+            self.mon.sim_now = self.time_keeper.time()
             self.mon.ev_fetch(list(trial_ids), out)
             return out
 
@@ -400,6 +401,47 @@ def _env():
         def own_states(self):
             """only trials that have reported (the others are invisible to stop_all, as documented)"""
             return {t: tr.status for t, tr in self._trial_dict.items() if isinstance(tr, TrialResult)}
+
+    class ObservedSim(ObserveSimMixin, UserBlackboxBackend):
+        pass
+
+    class ScriptedWorkerSim(ObserveSimMixin, SimulatorBackend):
+        """the library's ``SimulatorBackend`` with a scripted worker (the hook the blackbox back ends override): a job reports
+        the epochs the trial has not reported yet, ``epoch_time`` apart, and ends Completed or Failed -- also before its first
+        report.  The monitor is told the outcome and the simulated time at which each job ends (worker truth)."""
+
+        def __init__(self, mon, epoch_time, **kwargs):
+            super().__init__(entry_point=str(Path(__file__)), elapsed_time_attr="elapsed", **kwargs)  # entry point: dummy, never executed
+            self.mon = mon
+            self.epoch_time = epoch_time
+            self._job = {}
+
+        def _run_job_and_collect_results(self, trial_id, config=None):
+            if config is None:
+                config = self._trial_dict[trial_id].config
+            b = self.mon.behaviour(trial_id)
+            pos = self._last_metric_seen_index[trial_id]
+            results = []
+            for e in range(pos + 1, b["L"] + 1):
+                r = {"epoch": e, "loss": _loss(config, e), "acc": _acc(config, e), "elapsed": self.epoch_time * (e - pos)}
+                if self.mon.spec.get("with_cost"):
+                    r[ST_WORKER_COST] = 0.25 * (1 + trial_id % 2) * e
+                results.append(r)
+            status = FA if b["kind"] == "fail" else CO
+            self._job[trial_id] = (status, [r["elapsed"] for r in results])
+            return status, results
+
+        def _process_start_event(self, trial_id, time_event, config=None):
+            super()._process_start_event(trial_id, time_event, config)
+            status, elapsed = self._job[trial_id]
+            end = max([time_event] + [time_event + float(x) for x in elapsed]) + self.simulator_config.delay_complete_after_final_report
+            self.mon.ev_job(trial_id, end, status)
+
+        def stdout(self, trial_id):
+            return []
+
+        def stderr(self, trial_id):
+            return []
 
     class ScriptedScheduler(TrialScheduler):
         def __init__(self, sspec):
@@ -529,6 +571,9 @@ class Mon:
         self.wtime = {}
         self.mm = {}
         self.sim_time = -math.inf
+        self.sim_now = None
+        self.truth = spec.get("worker") == "scripted"
+        self.jobs = {}
         self.delivered = 0
         self.iter = 0
         self.polls = 0
@@ -558,7 +603,7 @@ class Mon:
 
     def poll(self):
         self.polls += 1
-        if self.polls > (MAX_POLLS_SIM if self.sim else MAX_POLLS_TICK):
+        if self.polls > self.spec.get("max_polls", MAX_POLLS_SIM if self.sim else MAX_POLLS_TICK):
             self.stuck = True
             raise _Stuck("more than %d polls" % (self.polls - 1))
 
@@ -609,6 +654,11 @@ class Mon:
     def ev_fetch(self, trial_ids, out):
         status_dict, results = out
         for tid, (trial, status) in status_dict.items():
+            job = self.jobs.get(tid) if self.truth else None
+            if job is not None and job[0] <= self.sim_now - 1e-6:
+                # scripted simulator worker: the job of this (polled, hence neither stopped nor paused) trial ended before
+                # this poll; what happened is the worker's outcome, whatever the back end hands over
+                status = job[1]
             self.state[tid] = status
             self.alt.pop(tid, None)
         for tid, r in results:
@@ -626,9 +676,14 @@ class Mon:
             if "st_tuner_time" in r:
                 self.sim_time = max(self.sim_time, float(r["st_tuner_time"]))
 
+    def ev_job(self, tid, end, status):
+        self.jobs[tid] = (end, status)
+
     def ev_decision(self, tid, decision):
         self.delivered += 1
         s = self.state.get(tid)
+        if decision in (STOP, PAUSE):
+            self.jobs.pop(tid, None)
         if decision == STOP:
             if s == IP:
                 self.state[tid] = SP
@@ -651,6 +706,7 @@ class Mon:
         self.mark_processed()
         self.state[tid] = IP
         self.alt.pop(tid, None)
+        self.jobs.pop(tid, None)
         held_before = [i for i, h in self.held.items() if h is True and i < self.iter]
         self.check(C_NO_START_AFTER, not held_before, trial=tid, kind=kind, criterion_held_at_end_of_iteration=held_before[:1], criterion=self.crit)
         n_run = len(self.running())
@@ -784,9 +840,9 @@ class Mon:
         spec = self.spec
         inj = spec.get("inject")  # None | "result" | "suggest" | "no-results"
         self.mark_processed()
+        # a run cut off at the poll bound is judged like any other: its clean-up block ran, and it went on past every
+        # iteration after which it had to end
         self.check(C_TERMINATES, not self.stuck, polls=self.polls)
-        if self.stuck:
-            return
         status = tuner.tuning_status
         own = self.backend.own_states()
         # ---- exit path
@@ -936,8 +992,16 @@ def _make_scheduler(E, spec):
     raise KeyError(kind)
 
 
-def _make_sim_backend(E, spec):
+def _make_sim_backend(E, spec, mon):
     tb = spec["table"]
+    if spec.get("worker") == "scripted":
+        d = tb.get("delays", (0.0,) * 5)
+        return E.ScriptedWorkerSim(
+            mon,
+            epoch_time=tb["epoch_time"],
+            simulator_config=E.SimulatorConfig(delay_on_trial_result=d[0], delay_complete_after_final_report=d[1], delay_complete_after_stop=d[2], delay_start=d[3], delay_stop=d[4]),
+            tuner_sleep_time=tb["sleep"],
+        )
     nx, ny, n_fid = tb["nx"], tb["ny"], tb["n_fid"]
     rows = [(x, y) for x in range(nx) for y in range(ny)]
     ev = np.zeros((len(rows), 1, n_fid, 3))
@@ -976,7 +1040,7 @@ def run_scenario(E, book, spec, clock, root):
     with _quiet():
         scheduler = _make_scheduler(E, spec)
         if sim:
-            backend = _make_sim_backend(E, spec)
+            backend = _make_sim_backend(E, spec, mon)
             backend.mon = mon
         else:
             backend = E.TickBackend(mon)
@@ -1328,6 +1392,45 @@ def catalogue_sim(tier, seed):
     return out
 
 
+def catalogue_sim_failures(tier, seed):
+    """the library's SimulatorBackend with a scripted worker: trials that end Failed before their first report / after
+    1-2 reports, every / every 2nd / every 3rd trial, max_failures 0..3, n_workers 1..4; far and near criteria"""
+    out = []
+    i = 0
+    fails = {
+        "crash-before-first-report": lambda k: _beh(L=0, kind="fail"),
+        "fail-after-one-report": lambda k: _beh(L=1, kind="fail"),
+        "mixed": lambda k: _beh(L=k % 3, kind="fail"),
+    }
+    crits = [
+        {"max_num_trials_started": 25},
+        {"max_wallclock_time": 25.30017},
+        {"max_num_trials_finished": 6, "max_wallclock_time": 40.30017},
+        {"max_num_evaluations": 12, "max_num_trials_completed": 4, "max_num_trials_started": 40},
+    ]
+    for flabel, mk in fails.items():
+        for every in (1, 2, 3):
+            for max_failures in (0, 1, 2, 3):
+                for n_workers in (1, 2, 3, 4):
+                    i += 1
+                    if tier == "quick" and (i + seed) % 3 != 0:
+                        continue
+                    behs = [mk(k) if k % every == 0 else _beh(L=2 + k % 2) for k in range(6)]
+                    sched = {"kind": "scripted"}
+                    if i % 5 == 0:
+                        sched.update(rule=[(2, 1, 1, STOP, False)])
+                    if i % 7 == 0:
+                        sched.update(rule=[(3, 1, 1, PAUSE, True)], resume="fifo")
+                    out.append({
+                        "id": "MF%d/%s/every-%d/max_failures-%d/%d-workers" % (i, flabel, every, max_failures, n_workers), "family": "simulator-scripted-worker-failures", "backend": "sim", "worker": "scripted",
+                        "n_workers": n_workers, "async": i % 5 != 3, "wait": i % 4 == 1, "max_failures": max_failures, "with_cost": i % 2 == 0, "behaviours": behs,
+                        "criterion": crits[i % 4], "scheduler": sched,
+                        "table": {"epoch_time": 1.0, "sleep": [0.5, 1.0, 0.25][i % 3], "delays": [(0.0,) * 5, (0.0, 0.125, 0.0, 0.0, 0.0), (0.125, 0.125, 0.125, 0.25, 0.125)][i % 3]},
+                        "probe": i % 3 == 0, "probe_seed": i, "max_polls": 400,
+                    })  # fmt: skip
+    return out
+
+
 def _sim_spec(i, kind, sid, crit, seed, small=False):
     return {
         "id": sid, "family": "simulator", "backend": "sim", "n_workers": 1 + i % 4, "async": i % 5 != 3, "wait": i % 4 == 1, "max_failures": 1,
@@ -1365,9 +1468,10 @@ def monitor_termination(tier="quick", seed=0):
         specs += catalogue_failures(tier)
         specs += catalogue_exhaustion(tier)
         specs += catalogue_exceptions(tier)
-        specs += catalogue_random(tier, rs, 3000 if thorough else 300)
+        specs += catalogue_random(tier, rs, 2000 if thorough else 200)
         specs += catalogue_shipped(tier, seed)
         specs += catalogue_sim(tier, seed)
+        specs += catalogue_sim_failures(tier, seed)
         for spec in specs:
             run_scenario(E, book, spec, clock, root)
     finally:
